@@ -1,4 +1,4 @@
-CONSTANTS BODY = "B"  TMIN = -16  TMAX = 15  CMIN = -16  CMAX = 15  BLO = -16  BHI = 15
+CONSTANTS BODY = "B"  TNEG = 16  TMAX = 15  CNEG = 16  CMAX = 15  BNEG = 16  BHI = 15
           MAXELEMS = 8  MAXPEERS = 6  REVERSED = FALSE  NEARMAX = TRUE  WRAPPED = TRUE
 SPECIFICATION Spec
 INVARIANTS C15_Range
